@@ -181,4 +181,22 @@ PROPS = {
         "not_decided": ["'accepted => simulates' is decided under C02/C13 for the skeletons covered there", "combinations of several rule violations at once (each rule is checked on its own)"],
         "assumptions": COMMON_ASSUMPTIONS,
     },
+    "C02": {
+        "contracts": ["C02.decisions", "lcm.argmax.argmax", "lcm.argmax.segment_argmax", "lcm.model_functions.get_utility_and_feasibility_function", "lcm.dispatchers.spacemap", "lcm.dispatchers.vmap_1d"],
+        "families": {"quick": "Skel-quick, every period, any number of agents, initial states on or off the grid, arbitrary value arrays", "thorough": "Skel-thorough + reversed key order of initial_states"},
+        "not_decided": ["floating-point tolerance (vacuous over the reals)", "JIT compilation"],
+        "assumptions": COMMON_ASSUMPTIONS + ["every restricted-state label combination admits a filter-passing choice in every period, and every agent has a feasible grid choice with a finite objective (supported inputs)", "user functions act elementwise on arrays"],
+    },
+    "C03": {
+        "contracts": ["C03.law-of-motion", "C13.panel", "lcm.input_processing.process_model.process_model"],
+        "families": {"quick": "Skel-quick, all consecutive period pairs, any number of agents", "thorough": "Skel-thorough + reversed key order"},
+        "not_decided": ["'positive probability' rests on the assumed contract of jax.random.choice"],
+        "assumptions": COMMON_ASSUMPTIONS + ["user functions act elementwise on arrays", "jax.random.choice returns a label of positive probability (assumed PRNG contract)"],
+    },
+    "C13": {
+        "contracts": ["C13.panel", "C13.targets", "lcm.dispatchers.vmap_1d"],
+        "families": {"quick": "Skel-quick (n_periods 2..3), any number of agents; additional targets: every auxiliary function, utility, constraints and deterministic transitions of each skeleton", "thorough": "Skel-thorough"},
+        "not_decided": ["n_periods beyond the skeletons' horizons (the panel assembly is unrolled per skeleton)"],
+        "assumptions": COMMON_ASSUMPTIONS + ["pandas.DataFrame / MultiIndex.from_product contracts (assumed)"],
+    },
 }
